@@ -201,6 +201,7 @@ structure TableWF (t : Table) : Prop where
   named_nodup : (namedNames t).Nodup
   fk_nodup : (t.fks.map (fkSig t.name)).Nodup
   fk_names_nodup : (t.fks.map (·.name)).Nodup
+  fk_cols_nodup : (t.fks.map (fun f => (f.cols, f.reftable, f.refcols))).Nodup
   uq_sig_nodup : (t.uqs.map uqSig).Nodup
 
 structure WF (a : Schema) : Prop where
